@@ -6,7 +6,6 @@ import (
 	"golang.org/x/tools/go/ssa"
 
 	"rjverif/internal/scan"
-	"rjverif/internal/sibling"
 )
 
 // Debug dumps models (development aid).
@@ -23,7 +22,7 @@ func Debug(x *Ctx, args []string) {
 		fmt.Print(l.Dump())
 		fmt.Println(p)
 	case "sibling":
-		rep, err := sibling.CompareSSA(x.W)
+		rep, err := x.Sibling()
 		if err != nil {
 			fmt.Println("ERR", err)
 			return
